@@ -190,3 +190,20 @@ def _c03_energy(params, inputs, observed):
         if observed['ein'][p] < 0:
             ok = True
     return ok
+
+
+@predicate('c14_even_floor_after_decimation')
+def _c14_even(params, inputs, observed):
+    """decimation (dt < target) with even=True: the output length is exactly the documented 2*int(factor*L/2), i.e.
+    the loss of duration comes from flooring to an even length after decimating, nothing else."""
+    import math
+    if not params.get('even') or 'out' not in observed:
+        return False
+    dt = float(inputs['dt'])
+    target = float(inputs['target'])
+    L = params['L']
+    f = dt / target
+    if f >= 1:
+        return False
+    k = math.floor(1 / f)
+    return len(observed['out']) == 2 * int((L / k) / 2) and abs(observed['new_dt'] - dt * k) <= 1e-12 * dt * k
